@@ -275,6 +275,8 @@ RULES = [
     ("C13-R1", "date comparison arms on all orderings of (t, a, b)", r1),
     ("C13-R2", "interval construction table of parse_datetime", r2),
     ("C13-R3", "date regex groups, output format, local-time conversion of time columns", r3),
+    ("C13-R4", "panic sites of the date parser are guarded or reviewed [analysis P of C10]",
+     lambda ctx: __import__("c10").r1(ctx, only=lambda s: s.fn.startswith("util::datetime::") or s.fn == "function::Variant::to_datetime", rule_prefix="date-")),
 ]
 
 EXPLANATION = (
